@@ -349,8 +349,8 @@ fn exec(mode: Mode, case: &Case, ctx: &Ctx) {
             }
         }
         let restarts = instances.values().filter(|v| v.len() >= 2).count();
-        // ---- C21: every request processed and answered, in order ----
-        if mode == Mode::C21 {
+        // ---- C21 and C22: every request is answered (exactly once: the reply channel is a oneshot) ----
+        {
             for q in &reqs {
                 match answers.get(&q.issue_idx) {
                     None => {
@@ -364,6 +364,9 @@ fn exec(mode: Mode, case: &Case, ctx: &Ctx) {
                     _ => {}
                 }
             }
+        }
+        // ---- C21: requests are handled in issue order ----
+        if mode == Mode::C21 {
             // handling order per remote = issue order (requests with addresses carry a unique port)
             for r in 0..2u8 {
                 let handled: Vec<u16> = events
